@@ -51,6 +51,45 @@ func (wl *writeLog) applied(obj client.Object, err error) {
 	}
 }
 
+// statusFault logs a status write and decides its fault.  failAt[-2] applies to the first status write
+// wherever it falls; "concurrent-fail" is not a failure of the call: another writer (kubectl-eds canary
+// fail, a second controller instance at leader hand-over) marks the replica set Canary-Failed between
+// the controller's read and this write — the stored object then carries a newer resourceVersion.
+func statusFault(c client.Client, wl *writeLog, failAt map[int]string, fault func() string, obj client.Object) string {
+	wl.mu.Lock()
+	wl.Order = append(wl.Order, "status:"+kindOf(obj)+"/"+obj.GetName())
+	wl.Status = append(wl.Status, obj.DeepCopyObject().(client.Object))
+	f := fault()
+	if sp, ok := failAt[-2]; ok && f == "" {
+		f = sp
+		delete(failAt, -2)
+	}
+	wl.mu.Unlock()
+	if f == "concurrent-fail" {
+		if _, isErs := obj.(*edsv1.ExtendedDaemonSetReplicaSet); isErs {
+			cur := &edsv1.ExtendedDaemonSetReplicaSet{}
+			if err := c.Get(context.TODO(), client.ObjectKeyFromObject(obj), cur); err == nil {
+				now := metav1.Now()
+				set := false
+				for i := range cur.Status.Conditions {
+					if cur.Status.Conditions[i].Type == edsv1.ConditionTypeCanaryFailed {
+						cur.Status.Conditions[i].Status = corev1.ConditionTrue
+						cur.Status.Conditions[i].LastTransitionTime, cur.Status.Conditions[i].LastUpdateTime = now, now
+						set = true
+					}
+				}
+				if !set {
+					cur.Status.Conditions = append(cur.Status.Conditions, edsv1.ExtendedDaemonSetReplicaSetCondition{
+						Type: edsv1.ConditionTypeCanaryFailed, Status: corev1.ConditionTrue, LastTransitionTime: now, LastUpdateTime: now, Reason: "ManuallyFailed"})
+				}
+				_ = c.Status().Update(context.TODO(), cur)
+			}
+		}
+		return ""
+	}
+	return f
+}
+
 // rejected: the error a rejected write returns.  "conflict" is a 409 (another writer changed the object
 // between the controller's read and its write); a plain "reject" cycles through the API error kinds.
 func rejected(f, verb string, obj client.Object) error {
@@ -145,20 +184,22 @@ func loggingClient(objs []client.Object, wl *writeLog, failAt map[int]string) cl
 			return err
 		},
 		SubResourceUpdate: func(ctx context.Context, c client.Client, sub string, obj client.Object, opts ...client.SubResourceUpdateOption) error {
-			wl.mu.Lock()
-			wl.Order = append(wl.Order, "status:"+kindOf(obj)+"/"+obj.GetName())
-			wl.Status = append(wl.Status, obj.DeepCopyObject().(client.Object))
-			f := fault()
-			// failAt[-2]: fault on the (first) status write, wherever it falls in the sequence
-			if sp, ok := failAt[-2]; ok && f == "" {
-				f = sp
-				delete(failAt, -2)
-			}
-			wl.mu.Unlock()
+			f := statusFault(c, wl, failAt, fault, obj)
 			if f == "reject" || f == "conflict" {
 				return rejected(f, "status", obj)
 			}
 			err := c.SubResource(sub).Update(ctx, obj, opts...)
+			if f == "lost" {
+				return fmt.Errorf("injected (applied)")
+			}
+			return err
+		},
+		SubResourcePatch: func(ctx context.Context, c client.Client, sub string, obj client.Object, patch client.Patch, opts ...client.SubResourcePatchOption) error {
+			f := statusFault(c, wl, failAt, fault, obj)
+			if f == "reject" || f == "conflict" {
+				return rejected(f, "status", obj)
+			}
+			err := c.SubResource(sub).Patch(ctx, obj, patch, opts...)
 			if f == "lost" {
 				return fmt.Errorf("injected (applied)")
 			}
